@@ -643,7 +643,10 @@ func startFileServer() (*fileServer, error) {
 		return nil, err
 	}
 	f.url = "http://" + ln.Addr().String()
-	go http.Serve(ln, http.HandlerFunc(func(w http.ResponseWriter, rq *http.Request) {
+	srv := &http.Server{}
+	srv.SetKeepAlivesEnabled(false) // every Pull builds its own transport: no idle connections may pile up
+	srv.Handler = http.HandlerFunc(func(w http.ResponseWriter, rq *http.Request) {
+		w.Header().Set("Connection", "close")
 		f.mu.Lock()
 		b, ok := f.files[rq.URL.Path]
 		f.mu.Unlock()
@@ -652,7 +655,8 @@ func startFileServer() (*fileServer, error) {
 			return
 		}
 		w.Write(b)
-	}))
+	})
+	go srv.Serve(ln)
 	return f, nil
 }
 
